@@ -72,6 +72,13 @@ class SymX:
             def visit_Lambda(self, n):
                 return ast.Name(id="<lambda>", ctx=ast.Load())
 
+            def visit_Call(self, n):
+                self.generic_visit(n)
+                if isinstance(n.func, ast.Name) and n.func.id in ("dict", "list", "tuple") and not n.args and not n.keywords:
+                    return {"dict": ast.Dict(keys=[], values=[]), "list": ast.List(elts=[], ctx=ast.Load()),
+                            "tuple": ast.Tuple(elts=[], ctx=ast.Load())}[n.func.id]       # the empty literal it builds
+                return n
+
             def visit_comprehension(self, n):
                 return n
         return ("t", ast.unparse(Sub().visit(clone(e))))
